@@ -16,8 +16,10 @@ structure Sim (t : Track) (s : State) : Prop where
   users : t.users = s.active
   toks : t.toks = s.toks
   sess : ∀ k u, get s.sess k = some (u, false) → get t.sess k = some u
+  /-- with the production session store no expired session is ever present -/
+  noExp : s.cfgB = false → ∀ k u, get s.sess k ≠ some (u, true)
 
-theorem sim_init : Sim {} init := ⟨rfl, rfl, rfl, rfl, fun _ _ h => by simp [init] at h⟩
+theorem sim_init : Sim {} init := ⟨rfl, rfl, rfl, rfl, fun _ _ h => by simp [init] at h, fun _ _ _ h => by simp [init] at h⟩
 
 theorem take_all (p : String) (h : ¬ (p.length > maxPasswordLen)) :
     String.ofList (p.toList.take maxPasswordLen) = p := by
@@ -74,7 +76,7 @@ theorem sim_setPassword {t : Track} {s : State} (h : Sim t s) (uid : Nat) (p : S
     · split
       · simp only [trackStep]; exact h
       · simp only [trackStep, ↓reduceIte]
-        exact ⟨h.ok, by simp [h.pw], h.users, h.toks, h.sess⟩
+        exact ⟨h.ok, by simp [h.pw], h.users, h.toks, h.sess, h.noExp⟩
 
 theorem sim_cas {t : Track} {s : State} (h : Sim t s) (uid : Nat) (old new : String) :
     Sim (trackStep t (.cas uid old new, (compareAndSet s uid old new).2)) (compareAndSet s uid old new).1 := by
@@ -91,7 +93,7 @@ theorem sim_cas {t : Track} {s : State} (h : Sim t s) (uid : Nat) (old new : Str
       · split
         · simp only [trackStep]; exact h
         · simp only [trackStep, ↓reduceIte, h.pw, hold]
-          exact ⟨h.ok, rfl, h.users, h.toks, h.sess⟩
+          exact ⟨h.ok, rfl, h.users, h.toks, h.sess, h.noExp⟩
   · rename_i hok
     simp only [trackStep, hok]
     exact h
@@ -135,10 +137,10 @@ theorem sim_createUser {t : Track} {s : State} (h : Sim t s) (n : String) :
   simp only
   repeat' split
   all_goals first
-    | (simp only [trackStep]; exact ⟨h.ok, h.pw, h.users, h.toks, h.sess⟩)
+    | (simp only [trackStep]; exact ⟨h.ok, h.pw, h.users, h.toks, h.sess, h.noExp⟩)
     | skip
   simp only [trackStep]
-  exact ⟨h.ok, h.pw, by simp [h.users], h.toks, h.sess⟩
+  exact ⟨h.ok, h.pw, by simp [h.users], h.toks, h.sess, h.noExp⟩
 
 theorem sim_setUserStatus {t : Track} {s : State} (h : Sim t s) (u : Nat) (a : Bool) :
     Sim (trackStep t (.us u a, (setUserStatus s u a).2)) (setUserStatus s u a).1 := by
@@ -148,7 +150,7 @@ theorem sim_setUserStatus {t : Track} {s : State} (h : Sim t s) (u : Nat) (a : B
     | (simp only [trackStep]; exact h)
     | skip
   simp only [trackStep]
-  exact ⟨h.ok, h.pw, by simp [h.users], h.toks, h.sess⟩
+  exact ⟨h.ok, h.pw, by simp [h.users], h.toks, h.sess, h.noExp⟩
 
 theorem sim_deleteUser {t : Track} {s : State} (h : Sim t s) (u : Nat) :
     Sim (trackStep t (.du u, (deleteUser s u).2)) (deleteUser s u).1 := by
@@ -158,7 +160,7 @@ theorem sim_deleteUser {t : Track} {s : State} (h : Sim t s) (u : Nat) :
     | (simp only [trackStep]; exact h)
     | skip
   simp only [trackStep]
-  exact ⟨h.ok, by simp [h.pw], by simp [h.users], h.toks, h.sess⟩
+  exact ⟨h.ok, by simp [h.pw], by simp [h.users], h.toks, h.sess, h.noExp⟩
 
 theorem sim_createTok {t : Track} {s : State} (h : Sim t s) (u : Nat) (tk : String) (a : Bool) :
     Sim (trackStep t (.ct u tk a, (createTok s u tk a).2)) (createTok s u tk a).1 := by
@@ -168,7 +170,7 @@ theorem sim_createTok {t : Track} {s : State} (h : Sim t s) (u : Nat) (tk : Stri
     | (simp only [trackStep]; exact h)
     | skip
   simp only [trackStep]
-  exact ⟨h.ok, h.pw, h.users, by simp [h.toks], h.sess⟩
+  exact ⟨h.ok, h.pw, h.users, by simp [h.toks], h.sess, h.noExp⟩
 
 theorem sim_updateTok {t : Track} {s : State} (h : Sim t s) (i : Nat) (a : Bool) :
     Sim (trackStep t (.ut i a, (updateTok s i a).2)) (updateTok s i a).1 := by
@@ -179,7 +181,7 @@ theorem sim_updateTok {t : Track} {s : State} (h : Sim t s) (i : Nat) (a : Bool)
     split
     · simp only [trackStep]; exact h
     · simp only [trackStep, h.toks, hr]
-      exact ⟨h.ok, h.pw, h.users, rfl, h.sess⟩
+      exact ⟨h.ok, h.pw, h.users, rfl, h.sess, h.noExp⟩
 
 theorem sim_deleteTok {t : Track} {s : State} (h : Sim t s) (i : Nat) :
     Sim (trackStep t (.dt i, (deleteTok s i).2)) (deleteTok s i).1 := by
@@ -189,7 +191,7 @@ theorem sim_deleteTok {t : Track} {s : State} (h : Sim t s) (i : Nat) :
     | (simp only [trackStep]; exact h)
     | skip
   simp only [trackStep]
-  exact ⟨h.ok, h.pw, h.users, by simp [h.toks], h.sess⟩
+  exact ⟨h.ok, h.pw, h.users, by simp [h.toks], h.sess, h.noExp⟩
 
 theorem sim_createSession {t : Track} {s : State} (h : Sim t s) (n : String) (l : Bool) :
     Sim (trackStep t (.cs n l, (createSession s n l).2)) (createSession s n l).1 := by
@@ -204,25 +206,34 @@ theorem sim_createSession {t : Track} {s : State} (h : Sim t s) (n : String) (l 
       cases l with
       | true =>
         simp only [↓reduceIte, Bool.not_true]
-        refine ⟨h.ok, h.pw, h.users, h.toks, ?_⟩
-        intro k u hk
-        simp only [get_put] at hk ⊢
-        split at hk
-        · rename_i e; subst e; simp only [Option.some.injEq, Prod.mk.injEq] at hk; simp [hk.1]
-        · rename_i e; simp only [e, ↓reduceIte]; exact h.sess k u hk
+        refine ⟨h.ok, h.pw, h.users, h.toks, ?_, ?_⟩
+        · intro k u hk
+          simp only [get_put] at hk ⊢
+          split at hk
+          · rename_i e; subst e; simp only [Option.some.injEq, Prod.mk.injEq] at hk; simp [hk.1]
+          · rename_i e; simp only [e, ↓reduceIte]; exact h.sess k u hk
+        · intro hB k u hk
+          simp only [get_put] at hk
+          split at hk
+          · simp at hk
+          · exact h.noExp hB k u hk
       | false =>
         simp only [Bool.false_eq_true, ↓reduceIte, Bool.not_false]
-        refine ⟨h.ok, h.pw, h.users, h.toks, ?_⟩
-        intro k u hk
-        simp only [get_put] at hk
-        split at hk
-        · simp at hk
-        · exact h.sess k u hk
+        refine ⟨h.ok, h.pw, h.users, h.toks, ?_, ?_⟩
+        · intro k u hk
+          simp only [get_put] at hk
+          split at hk
+          · simp at hk
+          · exact h.sess k u hk
+        · intro hB
+          simp only [Bool.false_or] at hc
+          simp only at hB
+          rw [hB] at hc; cases hc
     · rename_i hc
       have hl : l = false := by cases l <;> simp_all
       subst hl
       simp only [trackStep, Bool.false_eq_true, ↓reduceIte]
-      exact ⟨h.ok, h.pw, h.users, h.toks, h.sess⟩
+      exact ⟨h.ok, h.pw, h.users, h.toks, h.sess, h.noExp⟩
 
 theorem sim_expireSession {t : Track} {s : State} (h : Sim t s) (k : String) :
     Sim (trackStep t (.xs k, (expireSession s k).2)) (expireSession s k).1 := by
@@ -230,12 +241,50 @@ theorem sim_expireSession {t : Track} {s : State} (h : Sim t s) (k : String) :
   split
   · simp only [trackStep]; exact h
   · simp only [trackStep]
-    refine ⟨h.ok, h.pw, h.users, h.toks, ?_⟩
-    intro k' u hk
-    simp only [get_del] at hk ⊢
-    split at hk
-    · simp at hk
-    · rename_i e; simp only [e, ↓reduceIte]; exact h.sess k' u hk
+    refine ⟨h.ok, h.pw, h.users, h.toks, ?_, ?_⟩
+    · intro k' u hk
+      simp only [get_del] at hk ⊢
+      split at hk
+      · simp at hk
+      · rename_i e; simp only [e, ↓reduceIte]; exact h.sess k' u hk
+    · intro hB k' u hk
+      simp only [get_del] at hk
+      split at hk
+      · simp at hk
+      · exact h.noExp hB k' u hk
+
+/-- renewing never makes the checker's and the model's sessions disagree: an ended session is "not
+    found" and nothing is written; a present one is (with the production store) unexpired already -/
+theorem sim_renew {t : Track} {s : State} (h : Sim t s) (k : String) (far : Bool) :
+    Sim (trackStep t (.renew k far, (renewSession s k far).2)) (renewSession s k far).1 := by
+  simp only [trackStep]
+  unfold renewSession
+  split
+  · exact h
+  · rename_i hB
+    have hB' : s.cfgB = false := by simpa using hB
+    split
+    · exact h
+    · split
+      · exact h
+      · rename_i u expired hg
+        split
+        · refine ⟨h.ok, h.pw, h.users, h.toks, ?_, ?_⟩
+          · intro k' u' hk
+            simp only [get_put] at hk
+            split at hk
+            · rename_i e; subst e
+              simp only [Option.some.injEq, Prod.mk.injEq, and_true] at hk; subst hk
+              cases expired with
+              | false => exact h.sess _ _ hg
+              | true => exact absurd hg (h.noExp hB' _ _)
+            · exact h.sess k' u' hk
+          · intro _ k' u' hk
+            simp only [get_put] at hk
+            split at hk
+            · simp at hk
+            · exact h.noExp hB' k' u' hk
+        · exact h
 
 /-- an authenticated request of the model is backed by a current credential -/
 theorem serve_justified {t : Track} {s : State} (h : Sim t s) (hdr ck : Option String) {st uid : Nat}
@@ -288,8 +337,8 @@ theorem serve_justified {t : Track} {s : State} (h : Sim t s) (hdr ck : Option S
 theorem sim_step {t : Track} {s : State} (h : Sim t s) (op : Op) :
     Sim (trackStep t (op, (step s op).2)) (step s op).1 := by
   cases op with
-  | cfg a b c => exact ⟨rfl, rfl, rfl, rfl, fun _ _ hk => by simp [step] at hk⟩
-  | strong b => exact ⟨h.ok, h.pw, h.users, h.toks, h.sess⟩
+  | cfg a b c => exact ⟨rfl, rfl, rfl, rfl, fun _ _ hk => by simp [step] at hk, fun _ _ _ hk => by simp [step] at hk⟩
+  | strong b => exact ⟨h.ok, h.pw, h.users, h.toks, h.sess, h.noExp⟩
   | cu n => exact sim_createUser h n
   | us u a => exact sim_setUserStatus h u a
   | du u => exact sim_deleteUser h u
@@ -301,6 +350,7 @@ theorem sim_step {t : Track} {s : State} (h : Sim t s) (op : Op) :
   | dt i => exact sim_deleteTok h i
   | cs n l => exact sim_createSession h n l
   | xs k => exact sim_expireSession h k
+  | renew k far => exact sim_renew h k far
   | req hd ck =>
     simp only [step]
     cases hs : serve s hd ck with
